@@ -63,21 +63,22 @@ Proof.
   intros p lng dl m fpv outv keyv fr extra fs oa pe I Hmode. cbv zeta.
   pose proof (i_res _ _ _ _ _ _ _ _ I) as Hres.
   pose proof (i_fp _ _ _ _ _ _ _ _ I) as HF. pose proof (i_out _ _ _ _ _ _ _ _ I) as HO. pose proof (i_key _ _ _ _ _ _ _ _ I) as HK.
-  unfold vrel, krel in *.
+  pose proof HF as HF0. pose proof HO as HO0.
+  unfold vrel, krel in HF, HO, HK.
   unfold dv_blk, post_if, gv_post. cbn [seq_head seq_drop gv_body f_body Src_cli.f_get_v_opt_2].
   unfold post_checks.
   destruct Hmode as [Hm|Hm]; rewrite Hm in *; cbn [Z.eqb Pos.eqb orb andb].
   - destruct (fp p) as [f|]; cbn [is_some] in HF; [destruct HF as (nf & ->)|subst fpv].
-    2:{ eexists. unfold mk, gl, pps. xrun fail. }
+    2:{ eexists. unfold mk, gl. xrun fail. { apply closeFiles_call; [reflexivity | lia | first [exact Logic.I | exact (vrel_pv _ _ HF0) ] | first [exact Logic.I | exact (vrel_pv _ _ HO0)]]. } all: xrun fail. all: xrun fail. }
     destruct (key p) as [k|]; [destruct HK as (j & -> & _)|subst keyv].
-    2:{ eexists. unfold mk, gl, pps. xrun fail. }
+    2:{ eexists. unfold mk, gl. xrun fail. { apply closeFiles_call; [reflexivity | lia | first [exact Logic.I | exact (vrel_pv _ _ HF0) ] | first [exact Logic.I | exact (vrel_pv _ _ HO0)]]. } all: xrun fail. all: xrun fail. }
     destruct (out p); cbn [negb]; [destruct HO as (no & ->)|subst outv].
     + split; [|reflexivity]. unfold mk, gl, pps. xrun ltac:(first [rewrite Hres | rewrite res_load_mode]).
-    + eexists. unfold mk, gl, pps. xrun ltac:(first [rewrite Hres | rewrite res_load_mode]).
+    + eexists. unfold mk, gl. xrun ltac:(first [rewrite Hres | rewrite res_load_mode]). { apply closeFiles_call; [reflexivity | lia | first [exact Logic.I | exact (vrel_pv _ _ HF0) ] | first [exact Logic.I | exact (vrel_pv _ _ HO0)]]. } all: xrun fail. all: xrun fail.
   - destruct (fp p) as [f|]; cbn [is_some] in HF; [destruct HF as (nf & ->)|subst fpv].
-    2:{ eexists. unfold mk, gl, pps. xrun fail. }
+    2:{ eexists. unfold mk, gl. xrun fail. { apply closeFiles_call; [reflexivity | lia | first [exact Logic.I | exact (vrel_pv _ _ HF0) ] | first [exact Logic.I | exact (vrel_pv _ _ HO0)]]. } all: xrun fail. all: xrun fail. }
     destruct (key p) as [k|]; [destruct HK as (j & -> & _)|subst keyv].
-    2:{ eexists. unfold mk, gl, pps. xrun fail. }
+    2:{ eexists. unfold mk, gl. xrun fail. { apply closeFiles_call; [reflexivity | lia | first [exact Logic.I | exact (vrel_pv _ _ HF0) ] | first [exact Logic.I | exact (vrel_pv _ _ HO0)]]. } all: xrun fail. all: xrun fail. }
     split; [|reflexivity]. unfold mk, gl, pps. xrun ltac:(first [rewrite Hres | rewrite res_load_mode]).
 Qed.
 
@@ -102,7 +103,7 @@ Proof.
                eval s0 c1 = Ok (VInt (if mode p =? 117 then 1 else 0)) /\
                eval s0 c2 = Ok (VInt (if mode p =? 101 then 1 else 0)) /\
                eval s0 c3 = Ok (VInt (if (mode p =? 100) || (mode p =? 118) then 1 else 0))) /\
-            a1 = SSeq (SDelete (EVar "res")) (SReturn (Some ENull))).
+            a1 = SSeq (SCall None "closeFiles/1" None [EVar "res"]) (SSeq (SDelete (EVar "res")) (SReturn (Some ENull)))).
   { do 4 eexists. split; [reflexivity|]. split; [|reflexivity].
     intros s0 Hm0 Hl0. repeat split.
     - cbn [eval]. rewrite Hl0. cbn [bind as_int]. rewrite Hm0. cbn [bind]. change (0 + 288 * 1) with 288. rewrite res_load_mode.
@@ -118,7 +119,9 @@ Proof.
   assert (Hev0 := Hev (mk m (gl extra) fs (pps oa fpv outv keyv pe) fr) Hres eq_refl). destruct Hev0 as (E1 & E2 & E3).
   unfold post_checks.
   destruct (mode p =? 117) eqn:M117.
-  { eexists. eapply x_seq_ret. eapply x_if_true; [exact E1|discriminate|]. subst a1. unfold mk, gl. xrun fail. }
+  { eexists. eapply x_seq_ret. eapply x_if_true; [exact E1|discriminate|]. subst a1. unfold mk, gl. xrun fail.
+    { apply closeFiles_call; [reflexivity | lia | exact (vrel_pv _ _ (i_fp _ _ _ _ _ _ _ _ I)) | exact (vrel_pv _ _ (i_out _ _ _ _ _ _ _ _ I))]. }
+    all: xrun fail. all: xrun fail. }
   destruct (mode p =? 101) eqn:M101.
   { pose proof M101 as M101'. apply Z.eqb_eq in M101'.
     pose proof (enc_ok p lng dl m fpv outv keyv fr extra D gp fdone oa pe I M101') as HE. cbv zeta in HE. fold fs in HE.
